@@ -25,6 +25,10 @@ type extState struct {
 	// does not hold (identity hash -> variant): "an unknown hash ... produces an error response"
 	foreign  map[string]string
 	nForeign int
+	// parties whose deadline the driver let pass while several of their chain lookups were outstanding: that is the
+	// fault of this request - its lookups are then answered honestly (a second fault on top would only turn the
+	// request into an ordinary failure)
+	pastDeadline map[string]bool
 }
 
 func (w *World) drawExternal() {
@@ -117,6 +121,10 @@ func (x *extState) options(parked []*kernel.Parked) []kernel.Option {
 			d := left + time.Millisecond
 			n := inFlight[party]
 			out = append(out, kernel.Option{Key: "deadline of " + party + " passes", Weight: 6 * inFlight[party], Apply: func() {
+				if x.pastDeadline == nil {
+					x.pastDeadline = map[string]bool{}
+				}
+				x.pastDeadline[party] = true
 				s.Fault("deadline-during-lookups")
 				s.Probe(fmt.Sprintf("deadline-during-lookups.inflight=%d", min(n, 9)))
 				time.Sleep(d)
@@ -125,6 +133,9 @@ func (x *extState) options(parked []*kernel.Parked) []kernel.Option {
 	}
 	for _, p := range parked {
 		if !strings.HasPrefix(p.Name, "store.") && !strings.HasPrefix(p.Name, "cache.") {
+			continue
+		}
+		if x.pastDeadline[strings.TrimPrefix(p.Party, "cachefill:")] {
 			continue
 		}
 		var kinds []string
